@@ -51,6 +51,7 @@ type chainPlan struct {
 	balances   string
 	slots      int
 	seed       int64
+	late       bool // attestations are often held back, split into overlapping aggregates, and vote for odd heads/targets
 }
 
 // sweep returns cfg with another MAX_VALIDATORS_PER_WITHDRAWALS_SWEEP.
@@ -84,6 +85,11 @@ func plans(o hreg.Opts) []chainPlan {
 		add(chain.MinimalAt(1, 2, 3, 4), 64, "uniform", 44)
 		add(chain.RandomConfig(rng.Int63n(1<<30)), 48, "mixed", 32)
 		add(chain.RandomConfig(rng.Int63n(1<<30)), 32, "mixed", 32)
+		// late, split and odd votes: validators are attested again with other flag sets (altair and deneb windows)
+		add(chain.Fast(0, N, N, N), 48, "mixed", 24)
+		p[len(p)-1].late = true
+		add(chain.Fast(0, 0, 0, 1), 48, "mixed", 24)
+		p[len(p)-1].late = true
 		return p
 	}
 	for i := 0; i < 10; i++ {
@@ -100,6 +106,10 @@ func plans(o hreg.Opts) []chainPlan {
 	add(sweep(chain.Fast(0, 0, 0, 0), 24), 20, "rich", 48)
 	add(chain.MinimalAt(1, 2, 3, 4), 64, "mixed", 64)
 	add(chain.Minimal(), 64, "mixed", 48)
+	for _, cfg := range []*chain.Config{chain.Fast(0, N, N, N), chain.Fast(0, 0, N, N), chain.Fast(0, 0, 0, 2), chain.MinimalAt(0, 1, 2, 3)} {
+		add(cfg, 64, "mixed", 56)
+		p[len(p)-1].late = true
+	}
 	for i := 0; i < 12; i++ {
 		add(chain.RandomConfig(rng.Int63n(1<<30)), 16+16*rng.Intn(8), []string{"mixed", "uniform", "rich", "poor"}[rng.Intn(4)], 56)
 	}
@@ -222,6 +232,10 @@ func genChain(o hreg.Opts, p chainPlan, mutants bool) (out seqOut) {
 	}
 	c.Policy = chain.DefaultPolicy()
 	c.Policy.SkipProb = 0.08
+	if p.late {
+		c.Policy.LateInclusionProb, c.Policy.SplitProb, c.Policy.OddVoteProb = 0.5, 0.45, 0.2
+		stat("chain_policy", "late-split-odd-votes")
+	}
 	if mutants {
 		// the same chains as c01 would be fine; a slightly quieter policy keeps the mutant volume per block bounded
 	}
@@ -394,6 +408,34 @@ func genChain(o hreg.Opts, p chainPlan, mutants bool) (out seqOut) {
 			}
 		}
 		out.lines = append(out.lines, "reset")
+		{
+			// the block (healed: new state root, signed again) on pre-state variants on which it stays valid or is refused
+			// by one rule only; c01: the valid ones
+			bvs := participationVariant(step, fs)
+			if mutants {
+				bvs = append(bvs, exitAgeVariants(c, spec, step, fs)...)
+			}
+			for _, v := range bvs {
+				view, err := v.st.ToView(spec)
+				if err != nil {
+					out.err = fmt.Errorf("state variant %s: %w", v.label, err)
+					return
+				}
+				blk := step.Block
+				if v.block != nil {
+					blk = v.block
+				}
+				out.lines = append(out.lines, "pre "+cfgToks+" "+v.st.String())
+				emitOn(spec, v.st, view, v.label, blk, "valid", nil, true)
+				out.lines = append(out.lines, "reset")
+				stat("state_variants", v.label)
+				if mutants {
+					stat("mutant_rule_intended", fork+":"+v.rule)
+					stat("mutant_area", "pre-state")
+					stat("mutants", "state-variant")
+				}
+			}
+		}
 		if mutants {
 			// the same valid block on variants of the pre-state (rules that no block mutation can reach)
 			for _, v := range stateVariants(c, spec, step, fs, rng) {
